@@ -248,6 +248,52 @@ def run(ctx) -> None:
                 except ValueError as e:
                     impl.append("error" if str(e).startswith("refurb: ") else "foreign")
 
+        # ---- the loader itself (load_checks, what a run really uses) on a structured subset: every sequence of length <= 2 given on
+        # the command line, plus a random sample of the other cases; which probe modules end up registered?
+        import sys as _sys
+        from refurb.loader import load_checks
+
+        for rel, src in plugin_sources().items():
+            pth = d / rel
+            pth.parent.mkdir(exist_ok=True)
+            pth.write_text(src)
+        sub_idx = [i for i, (c, a) in enumerate(cases) if not c and len(a) <= 2]
+        rest = [i for i in range(len(cases)) if i not in set(sub_idx) and not isinstance(impl[i], str)]
+        sub_idx += rng.sample(rest, min(len(rest), 250 if ctx.quick else 3000))
+        loader_sets: dict[int, Any] = {}
+        _sys.path.insert(0, str(d))
+        try:
+            with settings_io.Cwd(d):
+                last_cfg = None
+                for i in sub_idx:
+                    cfg_opts, cli_opts = cases[i]
+                    cfg_text = to_toml(to_config(cfg_opts)) if cfg_opts else ""
+                    if cfg_text != last_cfg:
+                        (d / "pyproject.toml").write_text(cfg_text)
+                        last_cfg = cfg_text
+                    try:
+                        st = load_settings(["f.py", "--load", "probe_c09", *to_argv(cli_opts)])
+                        reg = load_checks(st)
+                        mods = {f.__module__ for fs in reg.values() for f in fs}
+                        loader_sets[i] = [f"probe_c09.k{p.lower()}{c}" in mods for p, c, _, _ in PROBES]
+                    except ValueError as e:
+                        loader_sets[i] = "error" if str(e).startswith("refurb: ") else "foreign"
+        finally:
+            _sys.path.remove(str(d))
+            for m in [m for m in _sys.modules if m == "probe_c09" or m.startswith("probe_c09.")]:
+                del _sys.modules[m]
+        for i, got in loader_sets.items():
+            cfg_opts, cli_opts = cases[i]
+            res.bump("load_checks_cases")
+            if got != impl[i]:
+                res.violate(
+                    f"load_checks registers {got} of the four probe checks, should_load_check (and the documented ladder) says {impl[i]}",
+                    {"kind": "load-checks-differs-from-ladder"},
+                    {"config": to_toml(to_config(cfg_opts)) if cfg_opts else "", "argv": ["f.py", "--load", "probe_c09", *to_argv(cli_opts)], "registered": got, "ladder": impl[i], "probes": [f"{p}{c}" for p, c, _, _ in PROBES],
+                     "how": "write the probe_c09 plugin (harness/props/c09.py:plugin_sources), f.py (`x = 1`) and pyproject.toml into an empty directory; python -m refurb <argv> --verbose lists the loaded checks"},
+                )
+                break
+
         # ---- model
         model: list[Any] = [None] * len(cases)
         if ctx.driver.available():
